@@ -133,7 +133,22 @@ def zero_of(t):
 # ================================================================================================== parser
 
 class ParserX(rs.Parser):
+    def expect(self, text):
+        # `x = e }` / `return e }`: the last statement of a block may lack its `;`
+        if text == ";" and self.at("}"):
+            return self.peek()
+        return rs.Parser.expect(self, text)
+
     def stmt(self):
+        st = self.stmt0()
+        if st.kind in ("exprs", "tail") and st.e.kind == "mcall" and st.e.name == "for_each" and len(st.e.args) == 1 \
+                and st.e.args[0].kind == "closure" and len(st.e.args[0].params) == 1:
+            # `iter.for_each(|p| body)` is `for p in iter body`
+            cl = st.e.args[0]
+            return N("for", st.pos, pat=cl.params[0], iter=st.e.recv, body=cl.body)
+        return st
+
+    def stmt0(self):
         x = self.peek()
         if x.kind == "id" and x.text == "let":
             j = self.i + 1
@@ -375,6 +390,7 @@ class FnTranslatorX(rs.FnTranslator):
         self.structs.update(fspec.get("structs", {}))
         self.self_calls = dict(unit.get("self_calls", {}))
         self.self_calls.update(fspec.get("self_calls", {}))
+        self.instances = dict(unit.get("ordered_instances", {}))      # generic `N: Ord` read at a fixed ordered Lean type
         self.mut_calls = dict(fspec.get("mut_calls", {}))
         for key, f in self.mut_calls.items():
             self.absfns["%mut:" + key] = dict(lean=f["lean"], args=[a for a in f["args"] if not a.startswith("closure:")],
@@ -406,6 +422,10 @@ class FnTranslatorX(rs.FnTranslator):
                 return TIter(self.ty(t.args[0]))
             if nm in OPAQUE and nm not in self.aliases:
                 return TOpaque(nm)
+            if nm in self.instances and not t.args:
+                ta = TAbs(nm, self.instances[nm])
+                ta.ordered = True
+                return ta
             if nm in self.structs and not t.args:
                 return TRec(nm, [(f, self.ty_of_text(ft)) for f, ft in self.structs[nm]])
         return rs.FnTranslator.ty(self, t)
@@ -418,7 +438,24 @@ class FnTranslatorX(rs.FnTranslator):
                 return " → ".join([paren_ty(t) if "→" in t else t for t in tys] + [r])
         return rs.FnTranslator.abs_sig(self, lean)
 
+    # ---------------------------------------------------------------- aliases `let a = &[mut] self.f;`
+    def find_aliases(self):
+        self.alias = {}
+        for m in re.finditer(r"\blet\s+(?:mut\s+)?(\w+)\s*=\s*&\s*(?:mut\s+)?self\s*\.\s*([\w]+(?:\s*\.\s*\w+)*)\s*;", self.body_text):
+            tgt = "self." + "".join(m.group(2).split())
+            if tgt in self._self_names:
+                self.alias[m.group(1)] = tgt
+
     # ---------------------------------------------------------------- self paths
+    def lookup(self, name, node):
+        al = getattr(self, "alias", {})
+        if name in al:
+            for sc in reversed(self.scopes):
+                if name in sc:
+                    return sc[name]
+            return rs.FnTranslator.lookup(self, al[name], node)
+        return rs.FnTranslator.lookup(self, name, node)
+
     def known(self, name):
         for sc in reversed(self.scopes):
             if name in sc:
@@ -470,7 +507,7 @@ class FnTranslatorX(rs.FnTranslator):
             elif e.kind == "mcall" and e.name in ADAPTERS:
                 e = e.recv
             elif e.kind == "var":
-                return e.name
+                return getattr(self, "alias", {}).get(e.name, e.name)
             else:
                 self.err("assignment target is not a variable, a field, `v[i]` or `*r`", e)
 
@@ -482,8 +519,9 @@ class FnTranslatorX(rs.FnTranslator):
                     out.append(nm)
                 return
             if n.kind == "var":
-                if n.name not in out:
-                    out.append(n.name)
+                nm = getattr(self, "alias", {}).get(n.name, n.name)
+                if nm not in out:
+                    out.append(nm)
                 return
             for k, v in n.__dict__.items():
                 if k in ("kind", "pos"):
@@ -674,6 +712,37 @@ class FnTranslatorX(rs.FnTranslator):
             return "%s %s %s" % (self.absfns[key]["lean"], atom(l), atom(r)), lt
         if k == "un" and e.op == "*" and strip(e.e).kind in ("mcall", "index", "field"):
             return self.expr(e.e, code, expected)
+        if k == "bin" and e.op in ("<", ">", "<=", ">=", "==", "!="):
+            sl = e.l
+            while sl.kind == "paren":
+                sl = sl.e
+            if sl.kind == "bin" and sl.op in ("<<", ">>") and self.is_lit(sl.l) and not self.is_lit(e.r):
+                # `(1 << k) <= n`: the literal takes the type of the other side of the comparison
+                r, rt = self.expr(e.r, code)
+                l, lt = self.expr(e.l, code, rt)
+                if lt != rt or not isinstance(lt, TInt) or lt.signed:
+                    self.err("comparison of %r with %r" % (lt, rt), e)
+                if e.op in ("==", "!="):
+                    return "%s %s %s" % (atom(l), e.op, atom(r)), TBool()
+                return "decide (%s %s %s)" % (atom(l), {"<": "<", ">": ">", "<=": "≤", ">=": "≥"}[e.op], atom(r)), TBool()
+            lt0 = self.peek_type(e.l) if strip(e.l).kind in ("var",) else None
+            l0 = strip(e.l)
+            if isinstance(lt0, TAbs) or l0.kind in ("field", "index", "var"):
+                sub = Code()
+                saved = self.n_tmp
+                try:
+                    _, tl = self.expr(e.l, sub)
+                except Unsupported:
+                    tl = None
+                self.n_tmp = saved
+                if isinstance(tl, TAbs) and getattr(tl, "ordered", False):
+                    l, lt = self.expr(e.l, code)
+                    r, rt = self.expr(e.r, code, lt)
+                    if rt != lt:
+                        self.err("comparison of %r with %r" % (lt, rt), e)
+                    if e.op in ("==", "!="):
+                        return "%s %s %s" % (atom(l), e.op, atom(r)), TBool()
+                    return "decide (%s %s %s)" % (atom(l), {"<": "<", ">": ">", "<=": "≤", ">=": "≥"}[e.op], atom(r)), TBool()
         if k == "var" and e.name == "None":
             if not isinstance(expected, TOpt):
                 self.err("`None` where the expected type is not known to be an `Option`", e)
@@ -1160,6 +1229,13 @@ class FnTranslatorX(rs.FnTranslator):
             return
         if k in ("break", "continue"):
             self.err("`%s` in a position the continuation-style translation does not reach (e.g. inside a nested `match`)" % k, s)
+        if k == "let" and s.pat.kind == "pid" and s.pat.name in getattr(self, "alias", {}):
+            tgt = self.lookup(self.alias[s.pat.name], s)
+            init = strip(s.init)
+            if init.kind != "field" or self.self_chain(init) is None or self.self_prefix(init) != (tgt.rust, []):
+                self.err("`%s` is bound twice (once as an alias of `%s`)" % (s.pat.name, tgt.rust), s)
+            self.scopes[-1][s.pat.name] = tgt
+            return
         if k == "let" and s.pat.kind == "ptuple" and strip(s.init).kind != "tuple" and s.ty is None \
                 and all(q.kind == "pid" for q in s.pat.items):
             val, t = self.expr(s.init, code, None)
@@ -1343,6 +1419,22 @@ class FnTranslatorX(rs.FnTranslator):
             if nt != TInt("usize"):
                 self.err("`.%s(%r)`" % (it.name, nt), it)
             return "%s.%s %s" % (atom(l), "take" if it.name == "take" else "drop", atom(n)), t, None
+        if it.kind == "mcall" and len(it.args) == 1 and it.name == "step_by" and strip(it.recv).kind == "range":
+            r = strip(it.recv)
+            if r.lo is None or r.hi is None or r.incl:
+                self.err("`.step_by` on a range without both bounds / an inclusive range", it)
+            if self.is_lit(r.lo) and not self.is_lit(r.hi):
+                hi, ht = self.expr(r.hi, code, None)
+                lo, lt = self.expr(r.lo, code, ht)
+            else:
+                lo, lt = self.expr(r.lo, code, None if not self.is_lit(r.lo) else TInt("usize"))
+                hi, ht = self.expr(r.hi, code, lt)
+            n, nt = self.expr(it.args[0], code, TInt("usize"))
+            if lt != TInt("usize") or ht != lt or nt != lt:
+                self.err("`(%r..%r).step_by(%r)`" % (lt, ht, nt), it)
+            tv = self.tmp()
+            code.bind(tv, ("call", "Rs.rangeStepBy %s %s %s" % (atom(lo), atom(hi), atom(n))))
+            return tv, lt, None
         if it.kind == "mcall" and len(it.args) == 1 and it.name == "step_by":
             l, t, br = self.loop_source(it.recv, code, s)
             if br is not None:
@@ -1619,6 +1711,7 @@ class FnTranslatorX(rs.FnTranslator):
         return self.seq(stmts[1:], tail_node, code, where)
 
     def translate(self, toks):
+        self.find_aliases()
         r = rs.FnTranslator.translate(self, toks)
         for key, h in self.holes.items():
             if int(key[3:]) not in self.holes_used:
